@@ -1,10 +1,776 @@
-//! Family `depth` — stub (replaced by the unit that owns this family).
+//! Family `depth` (C08): guard coverage of the interpreter's recursion.
+//!
+//! The compiled frame sizes live outside any model, and a native stack overflow kills the process,
+//! so the *behavioural* part of C08 (every recursion shape ends in `Stack overflow`, the crash
+//! thresholds, the stack the real binary needs) is driven by `checks/c08.py` against the real `naija`
+//! binary in child processes.  This module is the structural tie: an independent scan (not the Python
+//! extractor) of the current source for functions, call edges, call cycles and guard sites, answering
+//! the same questions as `nvdriver depth` answers from the hand-annotated model:
+//!
+//! ```text
+//! budget                      -> <STACK_BUDGET in bytes>
+//! guard <fn>                  -> 1 | 0     <fn> of runtime.rs calls the stack probe
+//! rec <fn>                    -> 1 | 0     <fn> lies on a call cycle of runtime.rs (+ recursive builtins)
+//! path <f1>,<f2>,…            -> ok frames=<n> guarded=<k> maxfree=<m> | no-edge <a>-><b> | empty
+//! front <stage> <fn>          -> rec=<0|1> guard=<0|1>     stage ∈ lexer parser resolver cfg
+//! ```
+//! `gen` writes: `budget`, `guard`/`rec` for every function seen, `front` for every function of the
+//! front-end files, and random walks (`path`) over the scanned graph starting at `run_inner`.
+//! The source root is `$NV_REPO` (default `/repo`).
 
-pub fn main(_args: &[String]) -> i32 {
-    eprintln!("family depth: not built yet");
-    2
+use std::collections::{BTreeMap, BTreeSet};
+
+use crate::util::{self, Out, Rng};
+
+pub fn main(args: &[String]) -> i32 {
+    match args.first().map(String::as_str) {
+        Some("gen") => generate(&args[1..]),
+        Some("run") => run(),
+        Some("scan") => {
+            let sc = Scan::runtime();
+            for (f, cs) in &sc.edges {
+                if sc.rec.contains(f) || f == "run_inner" {
+                    println!("{f} -> {}", cs.iter().cloned().collect::<Vec<_>>().join(" "));
+                }
+            }
+            0
+        }
+        _ => {
+            eprintln!("usage: nvh depth gen --seed S --n N | nvh depth run < requests | nvh depth scan");
+            2
+        }
+    }
 }
 
-/// Constants/tables of the compiled crate this family wants in `nvh dump-tables`
-/// (JSON key, JSON value text).
 pub fn dump_tables(_out: &mut Vec<(String, String)>) {}
+
+fn repo() -> String {
+    std::env::var("NV_REPO").unwrap_or_else(|_| "/repo".to_string())
+}
+
+// ---------------------------------------------------------------------------------------------
+// a small Rust source scanner
+
+/// Blank out comments, char literals and the inside of string literals (format braces are kept).
+fn strip(src: &str) -> Vec<u8> {
+    let b = src.as_bytes();
+    let mut out = Vec::with_capacity(b.len());
+    let mut i = 0;
+    while i < b.len() {
+        if b[i] == b'/' && i + 1 < b.len() && b[i + 1] == b'/' {
+            while i < b.len() && b[i] != b'\n' {
+                out.push(b' ');
+                i += 1;
+            }
+        } else if b[i] == b'/' && i + 1 < b.len() && b[i + 1] == b'*' {
+            while i < b.len() && !(b[i] == b'*' && i + 1 < b.len() && b[i + 1] == b'/') {
+                out.push(if b[i] == b'\n' { b'\n' } else { b' ' });
+                i += 1;
+            }
+            out.extend_from_slice(b"  ");
+            i += 2;
+        } else if b[i] == b'"' {
+            out.push(b'"');
+            i += 1;
+            while i < b.len() && b[i] != b'"' {
+                if b[i] == b'\\' {
+                    out.extend_from_slice(b"  ");
+                    i += 2;
+                } else {
+                    out.push(if b[i] == b'{' || b[i] == b'}' || b[i] == b'\n' { b[i] } else { b' ' });
+                    i += 1;
+                }
+            }
+            out.push(b'"');
+            i += 1;
+        } else if b[i] == b'\'' {
+            // char literal ('x', '\n', '\'') or lifetime ('a)
+            let lit = if i + 2 < b.len() && b[i + 1] == b'\\' {
+                b[i + 2..].iter().position(|&c| c == b'\'').map(|p| p + 3)
+            } else if i + 2 < b.len() && b[i + 2] == b'\'' {
+                Some(3)
+            } else {
+                None
+            };
+            match lit {
+                Some(n) if n <= 8 => {
+                    out.extend(std::iter::repeat_n(b' ', n));
+                    i += n;
+                }
+                _ => {
+                    out.push(b'\'');
+                    i += 1;
+                }
+            }
+        } else {
+            out.push(b[i]);
+            i += 1;
+        }
+    }
+    out
+}
+
+/// Blank out everything that exists only under the cargo feature `verif-hooks` (the attribute and the
+/// item / statement / expression it is attached to) and every `vtrace!(..)` call: verification hooks
+/// never change the scanned graph.  Returns text of the same length.
+fn drop_hooks(src: &str) -> String {
+    const ATTR: &[u8] = b"#[cfg(feature = \"verif-hooks\")]";
+    let raw = src.as_bytes();
+    let st = strip(src);
+    let mut out = raw.to_vec();
+    let blank = |out: &mut Vec<u8>, a: usize, b: usize| {
+        for c in &mut out[a..b.min(raw.len())] {
+            if *c != b'\n' {
+                *c = b' ';
+            }
+        }
+    };
+    let mut from = 0;
+    while let Some(p) = find_sub(raw, ATTR, from) {
+        from = p + ATTR.len();
+        let mut j = from;
+        let mut depth = 0i32;
+        let mut end = from;
+        while j < st.len() {
+            match st[j] {
+                b'(' | b'[' => depth += 1,
+                b')' | b']' => {
+                    if depth == 0 {
+                        end = j;
+                        break;
+                    }
+                    depth -= 1;
+                }
+                b'{' if depth == 0 => {
+                    end = block_end(&st, j);
+                    loop {
+                        let mut k = end;
+                        while k < st.len() && (st[k] == b' ' || st[k] == b'\n') {
+                            k += 1;
+                        }
+                        if k + 4 <= st.len() && &st[k..k + 4] == b"else" {
+                            if let Some(o) = st[k..].iter().position(|&c| c == b'{') {
+                                end = block_end(&st, k + o);
+                                continue;
+                            }
+                        }
+                        if k < st.len() && (st[k] == b';' || st[k] == b',') {
+                            end = k + 1;
+                        }
+                        break;
+                    }
+                    break;
+                }
+                b';' | b',' if depth == 0 => {
+                    end = j + 1;
+                    break;
+                }
+                b'}' if depth == 0 => {
+                    end = j;
+                    break;
+                }
+                _ => {}
+            }
+            j += 1;
+        }
+        blank(&mut out, p, end);
+    }
+    // stray trace calls
+    let mut from = 0;
+    while let Some(p) = find_sub(&st, b"vtrace!", from) {
+        from = p + 7;
+        let mut j = from;
+        while j < st.len() && st[j] == b' ' {
+            j += 1;
+        }
+        if j < st.len() && st[j] == b'(' {
+            let mut depth = 0i32;
+            while j < st.len() {
+                if st[j] == b'(' {
+                    depth += 1;
+                } else if st[j] == b')' {
+                    depth -= 1;
+                    if depth == 0 {
+                        break;
+                    }
+                }
+                j += 1;
+            }
+            blank(&mut out, p, j + 1);
+        }
+    }
+    String::from_utf8_lossy(&out).to_string()
+}
+
+fn block_end(s: &[u8], open: usize) -> usize {
+    let mut depth = 0i32;
+    for (j, &c) in s.iter().enumerate().skip(open) {
+        if c == b'{' {
+            depth += 1;
+        } else if c == b'}' {
+            depth -= 1;
+            if depth == 0 {
+                return j + 1;
+            }
+        }
+    }
+    s.len()
+}
+
+fn is_ident(c: u8) -> bool {
+    c.is_ascii_alphanumeric() || c == b'_'
+}
+
+fn find_sub(s: &[u8], pat: &[u8], from: usize) -> Option<usize> {
+    if from >= s.len() {
+        return None;
+    }
+    s[from..].windows(pat.len()).position(|w| w == pat).map(|p| p + from)
+}
+
+/// Names of the types that have an `impl` block in the file.
+fn impl_types(src: &str) -> BTreeSet<String> {
+    let s = strip(&drop_hooks(src));
+    let mut out = BTreeSet::new();
+    let mut from = 0;
+    while let Some(p) = find_sub(&s, b"impl", from) {
+        from = p + 4;
+        if (p > 0 && is_ident(s[p - 1])) || (p + 4 < s.len() && is_ident(s[p + 4])) {
+            continue;
+        }
+        let Some(o) = s[p..].iter().position(|&c| c == b'{' || c == b';') else { break };
+        let head = String::from_utf8_lossy(&s[p + 4..p + o]).to_string();
+        // drop generic argument lists, then take the last capitalised word (the `for` type, or the type)
+        let mut depth = 0;
+        let mut flat = String::new();
+        for c in head.chars() {
+            match c {
+                '<' => depth += 1,
+                '>' => depth -= 1,
+                _ if depth == 0 => flat.push(c),
+                _ => {}
+            }
+        }
+        let flat = flat.split(" where ").next().unwrap_or("").to_string();
+        if let Some(w) = flat.split(|c: char| !c.is_alphanumeric() && c != '_').filter(|w| w.chars().next().is_some_and(char::is_uppercase)).last() {
+            out.insert(w.to_string());
+        }
+    }
+    out
+}
+
+struct FnDef {
+    name: String,
+    body: Vec<u8>,
+    in_value_impl: bool,
+}
+
+/// Every `fn name(...) {body}` outside `#[cfg(test)] mod`.
+fn functions(src: &str) -> Vec<FnDef> {
+    let mut s = strip(&drop_hooks(src));
+    if let Some(p) = find_sub(&s, b"#[cfg(test)]", 0) {
+        if let Some(m) = find_sub(&s, b"mod ", p) {
+            if m - p < 40 {
+                if let Some(o) = s[m..].iter().position(|&c| c == b'{') {
+                    let e = block_end(&s, m + o);
+                    for c in &mut s[p..e] {
+                        if *c != b'\n' {
+                            *c = b' ';
+                        }
+                    }
+                }
+            }
+        }
+    }
+    // ranges of `impl … Value<…> {` blocks (inherent impl of the value type)
+    let mut value_impls: Vec<(usize, usize)> = Vec::new();
+    let mut from = 0;
+    while let Some(p) = find_sub(&s, b"impl", from) {
+        from = p + 4;
+        if p > 0 && is_ident(s[p - 1]) {
+            continue;
+        }
+        let Some(o) = s[p..].iter().position(|&c| c == b'{' || c == b';') else { break };
+        if s[p + o] != b'{' {
+            continue;
+        }
+        let head = String::from_utf8_lossy(&s[p..p + o]).to_string();
+        if !head.contains(" for ") && head.contains("Value<") && !head.contains("Host") {
+            value_impls.push((p + o, block_end(&s, p + o)));
+        }
+    }
+    let mut out = Vec::new();
+    let mut i = 0;
+    while let Some(p) = find_sub(&s, b"fn ", i) {
+        i = p + 3;
+        if p > 0 && is_ident(s[p - 1]) {
+            continue;
+        }
+        let mut j = p + 3;
+        while j < s.len() && s[j] == b' ' {
+            j += 1;
+        }
+        let st = j;
+        while j < s.len() && is_ident(s[j]) {
+            j += 1;
+        }
+        if st == j {
+            continue;
+        }
+        let name = String::from_utf8_lossy(&s[st..j]).to_string();
+        // body: first `{` at paren depth 0 before a `;`
+        let mut par = 0i32;
+        let mut open = None;
+        while j < s.len() {
+            match s[j] {
+                b'(' => par += 1,
+                b')' => par -= 1,
+                b';' if par == 0 => break,
+                b'{' if par == 0 => {
+                    open = Some(j);
+                    break;
+                }
+                _ => {}
+            }
+            j += 1;
+        }
+        let Some(open) = open else { continue };
+        let e = block_end(&s, open);
+        let in_value_impl = value_impls.iter().any(|&(a, b)| a < p && p < b);
+        out.push(FnDef { name, body: s[open..e].to_vec(), in_value_impl });
+    }
+    out
+}
+
+/// Calls made by `body` to functions in `own`: `self.f(`, `Self::f(`, bare `f(`; `.f(` only for
+/// `value_methods`; `XBuiltin::f(` for `builtins`; `Type::f(` for the file's own impl types when
+/// `own_types` is set (front-end files).
+fn callees(
+    body: &[u8],
+    own: &BTreeSet<String>,
+    value_methods: &BTreeSet<String>,
+    builtins: &BTreeSet<String>,
+    follow_types: &BTreeSet<String>,
+) -> BTreeSet<String> {
+    let mut found = BTreeSet::new();
+    let mut i = 0;
+    while i < body.len() {
+        if !(body[i].is_ascii_lowercase() || body[i] == b'_') || (i > 0 && is_ident(body[i - 1])) {
+            i += 1;
+            continue;
+        }
+        let st = i;
+        while i < body.len() && is_ident(body[i]) {
+            i += 1;
+        }
+        let name = String::from_utf8_lossy(&body[st..i]).to_string();
+        let mut j = i;
+        while j < body.len() && body[j] == b' ' {
+            j += 1;
+        }
+        if j + 2 < body.len() && &body[j..j + 3] == b"::<" {
+            // turbofish
+            while j < body.len() && body[j] != b'>' {
+                j += 1;
+            }
+            j += 1;
+        }
+        if j >= body.len() || body[j] != b'(' {
+            // a function passed by name: `Self::f`, `Value::f`, `OwnType::f` (not followed by `(`, `::`, `!`)
+            let next = if j < body.len() { body[j] } else { b' ' };
+            let mut k = st;
+            while k > 0 && body[k - 1] == b' ' {
+                k -= 1;
+            }
+            if k >= 2 && &body[k - 2..k] == b"::" && next != b':' && next != b'!' && next != b'<' {
+                let mut q = k - 2;
+                let qe = q;
+                while q > 0 && is_ident(body[q - 1]) {
+                    q -= 1;
+                }
+                let qual = String::from_utf8_lossy(&body[q..qe]).to_string();
+                if (qual == "Self" && own.contains(&name))
+                    || (qual == "Value" && value_methods.contains(&name))
+                    || (follow_types.contains(&qual) && own.contains(&name))
+                {
+                    found.insert(name);
+                }
+            }
+            continue;
+        }
+        // qualifier
+        let mut k = st;
+        while k > 0 && (body[k - 1] == b' ' || body[k - 1] == b'\n') {
+            k -= 1;
+        }
+        let (sep, qend) = if k >= 1 && body[k - 1] == b'.' {
+            (".", k - 1)
+        } else if k >= 2 && &body[k - 2..k] == b"::" {
+            ("::", k - 2)
+        } else {
+            ("", k)
+        };
+        let mut q = qend;
+        while q > 0 && (body[q - 1] == b' ' || body[q - 1] == b'\n') {
+            q -= 1;
+        }
+        let qe = q;
+        while q > 0 && is_ident(body[q - 1]) {
+            q -= 1;
+        }
+        let qual = String::from_utf8_lossy(&body[q..qe]).to_string();
+        match sep {
+            "" => {
+                if own.contains(&name) && !value_methods.contains(&name) && !matches!(name.as_str(), "fn") {
+                    // `fn name(` declarations inside the body (nested fns) are not calls
+                    let decl = st >= 3 && &body[st - 3..st] == b"fn ";
+                    if !decl {
+                        found.insert(name);
+                    }
+                }
+            }
+            "." => {
+                let before_q_is_dot = q > 0 && body[q - 1] == b'.';
+                if qual == "self" && !before_q_is_dot {
+                    if own.contains(&name) {
+                        found.insert(name);
+                    }
+                } else if value_methods.contains(&name) {
+                    found.insert(name);
+                }
+            }
+            _ => {
+                if qual == "Self" {
+                    if own.contains(&name) {
+                        found.insert(name);
+                    }
+                } else if qual.ends_with("Builtin") {
+                    if builtins.contains(&name) {
+                        found.insert(name);
+                    }
+                } else if follow_types.contains(&qual) && own.contains(&name) {
+                    found.insert(name);
+                }
+            }
+        }
+    }
+    // formatting a value: `write!(…"{x}"…)`, `arena_format!`, `println!`, `format!`
+    if own.contains("fmt") {
+        let txt = String::from_utf8_lossy(body);
+        let has_macro = ["write!(", "writeln!(", "arena_format!(", "format!(", "println!(", "print!("]
+            .iter()
+            .any(|m| txt.contains(m));
+        let has_brace_in_string = {
+            let mut inside = false;
+            let mut hit = false;
+            for &c in body {
+                if c == b'"' {
+                    inside = !inside;
+                } else if inside && c == b'{' {
+                    hit = true;
+                }
+            }
+            hit
+        };
+        if has_macro && has_brace_in_string {
+            found.insert("fmt".to_string());
+        }
+    }
+    found
+}
+
+/// Nodes on a cycle (iterative reachability: n is small).
+fn on_cycles(g: &BTreeMap<String, BTreeSet<String>>) -> BTreeSet<String> {
+    let mut res = BTreeSet::new();
+    for start in g.keys() {
+        let mut seen = BTreeSet::new();
+        let mut todo: Vec<&String> = g[start].iter().collect();
+        while let Some(x) = todo.pop() {
+            if x == start {
+                res.insert(start.clone());
+                break;
+            }
+            if seen.insert(x.clone()) {
+                if let Some(n) = g.get(x) {
+                    todo.extend(n.iter());
+                }
+            }
+        }
+    }
+    res
+}
+
+fn through_nonrecursive(
+    g: &BTreeMap<String, BTreeSet<String>>,
+    rec: &BTreeSet<String>,
+) -> BTreeMap<String, BTreeSet<String>> {
+    let mut out = BTreeMap::new();
+    for (a, succ) in g {
+        let mut seen = BTreeSet::new();
+        let mut hits = BTreeSet::new();
+        let mut todo: Vec<&String> = succ.iter().collect();
+        while let Some(x) = todo.pop() {
+            if !seen.insert(x.clone()) {
+                continue;
+            }
+            if rec.contains(x) {
+                hits.insert(x.clone());
+            } else if let Some(n) = g.get(x) {
+                todo.extend(n.iter());
+            }
+        }
+        out.insert(a.clone(), hits);
+    }
+    out
+}
+
+struct Scan {
+    budget: u64,
+    fns: BTreeSet<String>,
+    edges: BTreeMap<String, BTreeSet<String>>,
+    rec: BTreeSet<String>,
+    guards: BTreeSet<String>,
+}
+
+fn limit_const(body: &[u8]) -> bool {
+    let t = String::from_utf8_lossy(body);
+    t.contains("STACK_BUDGET") || (t.contains("MAX_") && (t.contains("DEPTH") || t.contains("NESTING")))
+}
+
+impl Scan {
+    fn runtime() -> Scan {
+        let root = repo();
+        let src = std::fs::read_to_string(format!("{root}/src/runtime.rs")).expect("runtime.rs");
+        let helpers = std::fs::read_to_string(format!("{root}/src/helpers.rs")).unwrap_or_default();
+        let budget = stack_budget(&src, &helpers);
+        let fns = functions(&src);
+        let mut own: BTreeSet<String> = fns.iter().map(|f| f.name.clone()).collect();
+        let mut value_methods: BTreeSet<String> =
+            fns.iter().filter(|f| f.in_value_impl).map(|f| f.name.clone()).collect();
+        value_methods.insert("fmt".to_string());
+        // recursive builtins: functions of src/builtins/*.rs that call themselves through Self/self
+        let mut builtin_rec: BTreeSet<String> = BTreeSet::new();
+        let mut bnames: Vec<_> = std::fs::read_dir(format!("{root}/src/builtins"))
+            .map(|d| d.filter_map(|e| e.ok()).map(|e| e.path()).collect::<Vec<_>>())
+            .unwrap_or_default();
+        bnames.sort();
+        let mut builtin_bodies: Vec<FnDef> = Vec::new();
+        for p in bnames {
+            if p.extension().is_some_and(|e| e == "rs") {
+                let bsrc = std::fs::read_to_string(&p).unwrap_or_default();
+                for f in functions(&bsrc) {
+                    let t = String::from_utf8_lossy(&f.body).replace(' ', "");
+                    if t.contains(&format!("Self::{}(", f.name)) || t.contains(&format!("self.{}(", f.name)) {
+                        builtin_rec.insert(f.name.clone());
+                        builtin_bodies.push(f);
+                    }
+                }
+            }
+        }
+        own.extend(builtin_rec.iter().cloned());
+        let mut g: BTreeMap<String, BTreeSet<String>> = BTreeMap::new();
+        let mut guard_fns = BTreeSet::new();
+        for f in &fns {
+            g.entry(f.name.clone()).or_default().extend(callees(&f.body, &own, &value_methods, &builtin_rec, &BTreeSet::new()));
+            if limit_const(&f.body) {
+                guard_fns.insert(f.name.clone());
+            }
+        }
+        for f in &builtin_bodies {
+            let e = g.entry(f.name.clone()).or_default();
+            e.insert(f.name.clone());
+            e.insert("fmt".to_string());
+        }
+        let mut guards = BTreeSet::new();
+        for f in &fns {
+            if guard_fns.contains(&f.name) {
+                continue;
+            }
+            let t = String::from_utf8_lossy(&f.body).to_string();
+            if guard_fns.iter().any(|gf| t.contains(&format!("{gf}("))) {
+                guards.insert(f.name.clone());
+            }
+        }
+        let rec = on_cycles(&g);
+        let edges = through_nonrecursive(&g, &rec);
+        Scan { budget, fns: own, edges, rec, guards }
+    }
+
+    fn front(stage: &str) -> Option<Scan> {
+        let rel = match stage {
+            "lexer" => "src/syntax/scanner.rs",
+            "parser" => "src/syntax/parser.rs",
+            "resolver" => "src/resolver.rs",
+            "cfg" => "src/analysis/cfg.rs",
+            _ => return None,
+        };
+        let src = std::fs::read_to_string(format!("{}/{rel}", repo())).ok()?;
+        let fns = functions(&src);
+        let own: BTreeSet<String> = fns.iter().map(|f| f.name.clone()).collect();
+        let none = BTreeSet::new();
+        let types = impl_types(&src);
+        let mut g: BTreeMap<String, BTreeSet<String>> = BTreeMap::new();
+        let mut guard_fns = BTreeSet::new();
+        for f in &fns {
+            g.entry(f.name.clone()).or_default().extend(callees(&f.body, &own, &none, &none, &types));
+            if limit_const(&f.body) {
+                guard_fns.insert(f.name.clone());
+            }
+        }
+        let rec = on_cycles(&g);
+        let mut guards = BTreeSet::new();
+        for f in &fns {
+            let t = String::from_utf8_lossy(&f.body).to_string();
+            if rec.contains(&f.name)
+                && (guard_fns.contains(&f.name)
+                    || t.contains("check_stack(")
+                    || guard_fns.iter().any(|gf| t.contains(&format!("{gf}("))))
+            {
+                guards.insert(f.name.clone());
+            }
+        }
+        let edges = through_nonrecursive(&g, &rec);
+        Some(Scan { budget: 0, fns: own, edges, rec, guards })
+    }
+}
+
+fn stack_budget(src: &str, helpers: &str) -> u64 {
+    let mut consts: BTreeMap<String, u64> = BTreeMap::new();
+    for _ in 0..4 {
+        for line in helpers.lines() {
+            let l = line.trim();
+            if let Some(rest) = l.strip_prefix("pub const ") {
+                if let (Some(c), Some(e)) = (rest.find(':'), rest.find('=')) {
+                    let name = rest[..c].trim().to_string();
+                    let expr = rest[e + 1..].trim().trim_end_matches(';');
+                    if let Some(v) = eval_product(expr, &consts) {
+                        consts.insert(name, v);
+                    }
+                }
+            }
+        }
+    }
+    // the non-wasm definition: the last `const STACK_BUDGET` in the file
+    let mut val = 0;
+    for line in src.lines() {
+        let l = line.trim();
+        if let Some(rest) = l.strip_prefix("const STACK_BUDGET") {
+            if let Some(e) = rest.find('=') {
+                if let Some(v) = eval_product(rest[e + 1..].trim().trim_end_matches(';'), &consts) {
+                    val = v;
+                }
+            }
+        }
+    }
+    val
+}
+
+fn eval_product(expr: &str, consts: &BTreeMap<String, u64>) -> Option<u64> {
+    let mut v = 1u64;
+    for f in expr.split('*') {
+        let f = f.trim().replace('_', "");
+        if let Ok(n) = f.parse::<u64>() {
+            v *= n;
+        } else {
+            v *= *consts.get(&f)?;
+        }
+    }
+    Some(v)
+}
+
+// ---------------------------------------------------------------------------------------------
+
+const STAGES: [&str; 4] = ["lexer", "parser", "resolver", "cfg"];
+
+fn generate(args: &[String]) -> i32 {
+    let seed = util::opt_u64(args, "--seed", 1);
+    let n = util::opt_u64(args, "--n", 300);
+    let mut rng = Rng::new(seed ^ 0xC08);
+    let mut out = Out::new();
+    let sc = Scan::runtime();
+    out.line("budget");
+    for f in &sc.fns {
+        out.line(&format!("guard {f}"));
+        out.line(&format!("rec {f}"));
+    }
+    for st in STAGES {
+        if let Some(fs) = Scan::front(st) {
+            for f in &fs.fns {
+                out.line(&format!("front {st} {f}"));
+            }
+        }
+    }
+    // random walks over the scanned graph (recursive core), from run_inner
+    for _ in 0..n {
+        let len = 2 + rng.below(40);
+        let mut path = vec!["run_inner".to_string()];
+        for _ in 0..len {
+            let cur = path.last().unwrap();
+            let succ: Vec<&String> = sc.edges.get(cur).map(|s| s.iter().collect()).unwrap_or_default();
+            if succ.is_empty() {
+                break;
+            }
+            let core: Vec<&String> = succ
+                .iter()
+                .copied()
+                .filter(|x| !matches!(x.as_str(), "fmt" | "promote" | "clone_into" | "join"))
+                .collect();
+            let pool = if !core.is_empty() && rng.chance(9, 10) { &core } else { &succ };
+            path.push((*rng.pick(pool)).clone());
+        }
+        out.line(&format!("path {}", path.join(",")));
+    }
+    0
+}
+
+fn run() -> i32 {
+    let sc = Scan::runtime();
+    let fronts: BTreeMap<&str, Scan> = STAGES.iter().filter_map(|s| Scan::front(s).map(|x| (*s, x))).collect();
+    let mut out = Out::new();
+    for line in util::stdin_lines() {
+        let w: Vec<&str> = line.split_whitespace().collect();
+        let ans = match w.as_slice() {
+            ["budget"] => sc.budget.to_string(),
+            ["guard", f] => bit(sc.guards.contains(*f)),
+            ["rec", f] => bit(sc.rec.contains(*f)),
+            ["front", st, f] => match fronts.get(st) {
+                Some(fs) => format!("rec={} guard={}", bit(fs.rec.contains(*f)), bit(fs.guards.contains(*f))),
+                None => "bad-op".to_string(),
+            },
+            ["path", p] => path_answer(&sc, p),
+            _ => "bad-op".to_string(),
+        };
+        out.line(&ans);
+    }
+    0
+}
+
+fn bit(b: bool) -> String {
+    if b { "1" } else { "0" }.to_string()
+}
+
+fn path_answer(sc: &Scan, p: &str) -> String {
+    let names: Vec<&str> = p.split(',').filter(|s| !s.is_empty()).collect();
+    if names.is_empty() {
+        return "empty".to_string();
+    }
+    let (mut frames, mut guarded, mut run, mut best) = (0u32, 0u32, 0u32, 0u32);
+    for (i, f) in names.iter().enumerate() {
+        if i > 0 {
+            let prev = names[i - 1];
+            let ok = sc.edges.get(prev).is_some_and(|s| s.contains(*f));
+            if !ok {
+                return format!("no-edge {prev}->{f}");
+            }
+        }
+        frames += 1;
+        if sc.guards.contains(*f) {
+            guarded += 1;
+            run = 0;
+        } else {
+            run += 1;
+            best = best.max(run);
+        }
+    }
+    format!("ok frames={frames} guarded={guarded} maxfree={best}")
+}
